@@ -5,6 +5,14 @@ and failure classification."""
 import os, re, subprocess
 from vlib import core
 
+ASAN_ENV = {"ASAN_OPTIONS": "detect_leaks=0:abort_on_error=0:print_legend=0"}
+
+
+def types(all_types, var):
+    """element types to run (env var restricts them, e.g. for mutation self-tests)"""
+    want = os.environ.get(var)
+    return [t for t in all_types if not want or t[0] in want.split(',')]
+
 
 class Model:
     """line-buffered conversation with a native Lean driver"""
@@ -70,6 +78,15 @@ def classify(ops, res):
         if "FPE" in err and not re.search(r"runtime error|AddressSanitizer: (?!FPE)", err):
             return (f"F1:optimalBatchSizes-division-by-zero:{last}",
                     f"SIGFPE (integer division by zero) in `{last}` on ops {ops}")
+        if "end of a value-returning function" in err and "sparse_matrix.hpp" in err:
+            return (f"F12:compressed_matrix-assign-no-return:{last}",
+                    f"compressed_matrix_impl::operator=(const&) has no return statement, reached through `{last}` on ops {ops}")
+        if "heap-use-after-free" in err and "compressed_vector" in err:
+            if last == "xform":
+                return (f"F10:sparse-createBatchFromRange-temporaries:{last}",
+                        f"Batch<compressed_vector>::createBatchFromRange reads a destroyed temporary (element-wise transform of sparse data) on ops {ops}")
+            return (f"F9:compressed_vector-copy-dangling:{last}",
+                    f"a copied compressed_vector points into its source's storage (use after free) in `{last}` on ops {ops}")
         m = re.search(r"ERROR: AddressSanitizer: (\S+)|runtime error: ([^\n]*)", err)
         tag = (m.group(1) or m.group(2)) if m else "crash"
         tag = re.sub(r"[^A-Za-z0-9_.-]+", "-", tag)[:60]
